@@ -69,6 +69,7 @@ static AS_DONE: AtomicUsize = AtomicUsize::new(0);
 static AS_EXIT: AtomicUsize = AtomicUsize::new(0);
 pub fn install_sched() {
     vh::set_sched_handler(Some(Box::new(|name: &'static str| match name {
+        n if crate::conc::sched_handler(n) => {}
         "cleanup_send" => {
             CL_SENT.fetch_add(1, Ordering::SeqCst);
         }
